@@ -55,7 +55,7 @@ CALIB = json.load(open(os.path.join(os.path.dirname(os.path.abspath(__file__)), 
 
 def _th():
     t = CALIB['thresholds']
-    return '%g,%g,%g,%g,%g,%g' % (t['peak'], t['decay'], t['reconv'], t['fecratio'], t['decay2'], t['fecframe'])
+    return '%g,%g,%g,%g,%g,%g,%g' % (t['peak'], t['decay'], t['reconv'], t['fecratio'], t['decay2'], t['fecframe'], t['reconvw'])
 
 
 def _k(ctx):
